@@ -401,3 +401,49 @@ class C15(_AppSpec):
     def bounds_text(self, tier):
         return {"fault index k": "0..80 (covers every callback / parser invocation / write-back step of the 2-file runs used)", "files": "2 per invocation, fault in either", "modes": "scan, fix, with and without --continue-on-error",
                 "documents": "1 (quick) / 3 (thorough) concrete first documents + one document with a symbolic cell"}
+
+
+_C11_DOCS = ["# a\n\nb   \nc\n", "a\n\n\n\nb", "- a\n- b\n\n1. c\n", "> a   \n> b\n", "```\na   \n```\n", "x\ty\n# h #\n"]
+
+
+class C11(_AppSpec):
+    prop = "C11"
+    per_path_timeout = 30.0
+    rule_text = ("kernel: real PluginManager.compile_pragmas + log_scan_failure with a symbolic failure line, symbolic count digits and a symbolic named/other-rule Bool against the documented range; pipeline: the same symbolic document scanned "
+                 "with and without a pragma line inserted at a line boundary (both prefixes, id/alias/unknown/blank identifiers, disable-next-line and disable-num-lines): failures equal the shifted failures minus exactly the named ones on the covered lines, "
+                 "malformed pragmas suppress nothing and are reported, the token stream without the pragma token equals the original shifted by one line; distinct = distinct (failure counts, rule ids)")
+    outside = _AppSpec.outside + ["count spellings other than ASCII digits that Python's int() accepts ('+3', ' 3', non-ASCII digits)", "fix-mode pragma renumbering"]
+
+    def shards(self, tier):
+        out = []
+        for p in ((1, 3) if tier == "quick" else (1, 2, 3, 7)):
+            for prefix in ("<!--", "<!---"):
+                out.append(self.job("c11kernel", {"p": p, "command": "disable-next-line", "prefix": prefix}))
+                for nd in (1, 2):
+                    out.append(self.job("c11kernel", {"p": p, "command": "disable-num-lines", "digits": nd, "prefix": prefix}))
+            out.append(self.job("c11kernel", {"p": p, "command": "disable-next-line", "ident": "line-length"}))
+            out.append(self.job("c11kernel", {"p": p, "command": "disable-next-line", "ident": "md999x"}))
+            out.append(self.job("c11kernel", {"p": p, "command": "disable-num-lines", "digits": 1, "ident": "nope"}))
+        pragmas = [
+            ("<!-- pyml disable-next-line md009-->", "disable-next-line", 1, ["md009"], True),
+            ("<!--- pyml disable-next-line no-trailing-spaces-->", "disable-next-line", 1, ["md009"], True),
+            ("<!-- pyml disable-num-lines 2 md009,md012-->", "disable-num-lines", 2, ["md009", "md012"], True),
+            ("<!-- pyml disable-num-lines 0 md009-->", "disable-num-lines", 0, [], False),
+            ("<!-- pyml disable-next-line bogus-->", "disable-next-line", 1, [], False),
+        ]
+        pool = _C11_DOCS[:3] if tier == "quick" else _C11_DOCS
+        for di, d in enumerate(pool):
+            nlines = d.count("\n") + 1
+            for at in range(nlines):
+                for pi, (text, cmd, n, named, ok) in enumerate(pragmas):
+                    if tier == "quick" and (at + pi + di) % 3:
+                        continue
+                    holes = [h for h in range(len(d)) if d[h] not in "\n"]
+                    hs = holes[:: max(1, len(holes) // 2)][:2] if tier == "quick" else holes[::2]
+                    out.append(self.job("c11", {"skeleton": d, "holes": [], "at": at, "pragma": text, "command": cmd, "n": n, "named": named, "wellformed": ok}))
+                    for h in hs[:1] if tier == "quick" else hs:
+                        out.append(self.job("c11", {"skeleton": d[:h] + "?" + d[h + 1:], "holes": [h], "at": at, "pragma": text, "command": cmd, "n": n, "named": named, "wellformed": ok}, budget=150.0))
+        return out
+
+    def bounds_text(self, tier):
+        return {"kernel": "pragma line p in {1,3} (quick) / {1,2,3,7}; failure line 1..14 symbolic; count = 1-2 symbolic ASCII digits; id, alias, unknown id", "pipeline": "%d documents, pragma inserted at every line boundary, 5 pragma texts, one symbolic cell" % (3 if tier == "quick" else len(_C11_DOCS)), "rules": "all 46 enabled"}
